@@ -105,10 +105,10 @@ def _classes():
 
 
 RAISE_KINDS = ["value", "weird", "sock", "lambda", "str", "repr", "reduce", "huge", "recursive", "group", "unicode", "stop", "zero", "other"]
-MUTATIONS = c06_wire.MUTATIONS + ["oversize"]
+MUTATIONS = c06_wire.MUTATIONS + ["oversize", "bad-ser", "bad-ser", "bad-type"]
 
 msg_spec = st.fixed_dictionaries({
-    "base": st.sampled_from(["connect", "invoke", "invoke", "invoke", "ping", "garbage", "raise", "raise", "stream"]),
+    "base": st.sampled_from(["connect", "connect", "invoke", "invoke", "invoke", "ping", "garbage", "raise", "raise", "stream"]),
     "ser": st.sampled_from(["marshal", "json", "serpent", "msgpack"]),
     "obj": st.sampled_from(["w", "w", "w", "nope", "Pyro.Daemon", "", 5]),
     "method": st.sampled_from(["f", "f", "raise_it", "nope", "_private", "__class__", "f.x", "gen", 7, None]),
@@ -147,7 +147,14 @@ def build_msg(m):
         method = m["method"]
         mtype, payload = wire.INVOKE, live.call_payload(ser, m["obj"], method, (3,), {})
     base = {"type": mtype, "flags": m["flags"], "seq": 1, "ser": live.SER_IDS[ser], "payload": payload, "ann": [], "corr": None}
-    muts = [x for x in m["muts"] if x[0] != "oversize"]
+    muts = []
+    for x in m["muts"]:
+        if x[0] == "bad-ser":
+            base["ser"] = [0, 5, 42, 99, 255][x[1] % 5]        # unknown serializer id, everything else valid
+        elif x[0] == "bad-type":
+            base["type"] = [0, 2, 3, 5, 7, 255][x[1] % 6]
+        elif x[0] != "oversize":
+            muts.append(x)
     raw = c06_wire.build_bytes({"kind": "bytes", "base": base, "muts": muts})
     if any(x[0] == "oversize" for x in m["muts"]) and len(raw) >= 16:
         raw = raw[:12] + (0x7ffffff0).to_bytes(4, "big") + raw[16:]
@@ -317,6 +324,22 @@ def _labels(case):
     return sorted(set(l))
 
 
+def sweep_cases():
+    """deterministic part: every base message x every single mutation (at a few values) x before/after handshake x FIN/RST"""
+    vals = [0, 1, 3, 4, 255, 65535, 2**31, 2**32 - 1]
+    for base in ("connect", "invoke", "ping", "raise"):
+        for mut in sorted(set(MUTATIONS)) + [None]:
+            for v in (vals if mut in ("type", "ser", "flags", "seq", "dlen", "alen", "truncate", "bad-ser", "bad-type", "chunklen", "flip") else vals[:2]):
+                for handshake in (False, True):
+                    m = {"base": base, "ser": "marshal", "obj": "w", "method": "f", "raise_kind": RAISE_KINDS[v % len(RAISE_KINDS)], "flags": 0,
+                         "muts": [[mut, v, (v % 7) - 3]] if mut else [], "garbage": b""}
+                    yield {"steps": [{"kind": "hostile", "handshake": handshake, "msgs": [m], "end": "fin" if v % 2 else "rst"}]}
+    for kind in RAISE_KINDS:
+        for ser in ("marshal", "json", "serpent", "msgpack"):
+            m = {"base": "raise", "ser": ser, "obj": "w", "method": "f", "raise_kind": kind, "flags": 0, "muts": [], "garbage": b""}
+            yield {"steps": [{"kind": "hostile", "handshake": True, "msgs": [m, dict(m, base="invoke")], "end": "fin"}]}
+
+
 def SHARDS(tier):
     sh = [{"servertype": s, "commtimeout": t} for s in ("thread", "multiplex") for t in (0.0, 0.5)]
     return sh * (2 if tier == "quick" else 4)
@@ -326,6 +349,14 @@ def run(ctx):
     sh = ctx.shard
     st_, to = sh.get("servertype", "thread"), sh.get("commtimeout", 0.0)
     try:
+        if sh.get("index", 0) < 4:        # the deterministic sweep runs once per (server type, timeout) combination
+            k = 0
+            for case in sweep_cases():
+                ctx.observe(case, run_case(case, st_, to, keep=True), _nontrivial(case), _labels(case) + ["sweep"])
+                k += 1
+                if ctx.violations:
+                    break
+            ctx.notes["sweep_cases"] = k
         n = ctx.n(400, 2500) if not to else ctx.n(150, 800)
         ctx.search(case_strategy(), lambda c: run_case(c, st_, to, keep=True), n, nontrivial=_nontrivial, labels=_labels,
                    name="hostile%s%s" % (st_, to), max_rounds=1, shrink_budget_s=30)   # one violation per shard: a failing case may cost a hang ceiling
